@@ -1,4 +1,5 @@
 pub mod c02;
+pub mod c03;
 pub mod c04;
 pub mod c08;
 pub mod c09;
@@ -63,6 +64,7 @@ pub fn finish(
 pub fn dispatch(id: &str) -> Option<(fn(Tier) -> i32, fn(&Value) -> String)> {
     match id {
         "C02" => Some((c02::run, common::replay_lockstep)),
+        "C03" => Some((c03::run, c03::replay)),
         "C04" => Some((c04::run, c04::replay)),
         "C08" => Some((c08::run, c08::replay)),
         "C09" => Some((c09::run, c09::replay)),
